@@ -153,6 +153,11 @@ impl<'a> TryFrom<&'a str> for Header<'a> {
             None => input.len(),
         };
 
+        if !input.is_char_boundary(length) {
+            // The byte after the CR starts a multi-byte character, so it is not a LF.
+            return Err(ParseError::InvalidSuffix);
+        }
+
         parse_header(&input[..length])
     }
 }
